@@ -258,6 +258,12 @@ func (g *Governance) Plan(c *Ctx) []hist.TxSpec {
 			if store == "propFailed" {
 				// funders take their money back, in two steps for the first
 				f := us[5%len(us)]
+				if !p.triedW {
+					// ... after trying to take out more than they put in (less than the proposal holds in total)
+					p.triedW = true
+					out = append(out, g.withdrawFunds(c, p, f, f, "2000000000", "withdraw more than the own contribution (must fail)"))
+					continue
+				}
 				mine := AmountAt(c.S, "propFunds_i_"+p.id+"_"+f.Addr.String())
 				if mine.Sign() > 0 {
 					half := mine.String()
